@@ -232,11 +232,11 @@ func (r *c04SendRun) pop(i int) {
 	case 0:
 		budget = c04bc(1 + r.rng.IntN(30)) // smaller than what the framer would offer; the repository's own tests do this
 	case 1:
-		budget = protocol.MaxByteCount
+		budget = protocol.MaxPacketBufferSize // the largest budget a packet can offer (frames come from a pool of packet-sized buffers)
 	case 2:
 		budget = protocol.MinStreamFrameSize + c04bc(r.rng.IntN(8))
 	default:
-		budget = protocol.MinStreamFrameSize + c04bc(r.rng.IntN(1400))
+		budget = protocol.MinStreamFrameSize + c04bc(r.rng.IntN(int(protocol.MaxPacketBufferSize-protocol.MinStreamFrameSize)+1))
 	}
 	limitBefore := st.limit
 	f, blocked, hasMore := st.str.popStreamFrame(budget, protocol.Version1)
@@ -323,25 +323,25 @@ func (r *c04SendRun) run(nOps int) {
 	for k := 0; k < nOps && r.err == ""; k++ {
 		i := r.rng.IntN(len(r.strs))
 		st := r.strs[i]
-		switch x := r.rng.IntN(100); {
-		case x < 22:
+		switch x := r.rng.IntN(1000); {
+		case x < 220:
 			r.write(i)
-		case x < 62:
+		case x < 620:
 			r.pop(i)
-		case x < 74:
+		case x < 740:
 			r.ackOrLose()
-		case x < 84:
+		case x < 850:
 			v := r.pickLimit(st.limit)
 			st.limit = max(st.limit, v)
 			r.ops = append(r.ops, c04SOp{K: "maxStreamData", S: i, A: int64(v)})
 			st.str.updateSendWindow(v)
 			synctest.Wait()
-		case x < 92:
+		case x < 940:
 			v := r.pickLimit(r.connLimit)
 			r.connLimit = max(r.connLimit, v)
 			r.ops = append(r.ops, c04SOp{K: "maxData", S: -1, A: int64(v)})
 			r.conn.UpdateSendWindow(v)
-		case x < 94:
+		case x < 955:
 			r.mu.Lock()
 			busy := st.inflight
 			r.mu.Unlock()
@@ -351,8 +351,10 @@ func (r *c04SendRun) run(nOps int) {
 				r.ops = append(r.ops, c04SOp{K: "close", S: i})
 				st.str.Close()
 			}
-		case x < 96:
-			if r.rng.IntN(2) == 0 {
+		case x < 963:
+			// (SetReliableBoundary after a cancellation or a STOP_SENDING corrupts the stream's frame accounting and
+			// panics on the next ACK; that is not a flow-control question and is kept out of these histories)
+			if r.rng.IntN(2) == 0 && !st.closed {
 				st.str.SetReliableBoundary()
 				r.ops = append(r.ops, c04SOp{K: "reliableBoundary", S: i})
 			}
@@ -362,14 +364,14 @@ func (r *c04SendRun) run(nOps int) {
 			st.closed = true
 			synctest.Wait()
 			r.drainCtrl(i)
-		case x < 97:
+		case x < 967:
 			r.n["stop_sending"]++
 			r.ops = append(r.ops, c04SOp{K: "stopSending", S: i})
 			st.str.handleStopSendingFrame(&wire.StopSendingFrame{StreamID: st.str.StreamID(), ErrorCode: 9})
 			st.closed = true
 			synctest.Wait()
 			r.drainCtrl(i)
-		case x < 98:
+		case x < 975:
 			st.str.SetWriteDeadline(time.Now().Add(time.Millisecond))
 			time.Sleep(2 * time.Millisecond)
 			synctest.Wait()
@@ -514,6 +516,7 @@ type c04RecvStr struct {
 	str  *ReceiveStream
 	id   protocol.StreamID
 	adv  c04bc
+	maxW c04bc
 	have []bool
 
 	highest    c04bc
@@ -525,10 +528,18 @@ type c04RecvStr struct {
 	resetSeen  bool // RESET_STREAM processed while not cancelled locally
 	anyReset   bool
 	reliable   c04bc
+	// how the final size became known (input class of the known leak)
+	cancelBeforeFinal bool
+	finalByResetAt    bool
+	reliableAtFinal   c04bc
 	eofSeen    bool
 	errSeen    bool
 	shutdown   bool
 	creditAtSD c04bc
+	// leak: the stream is in the one state in which the unchanged tree is known not to return the
+	// abandoned bytes (reported once per history under its own signature); the model then follows the
+	// code so that the rest of the history is still checked
+	leak bool
 }
 
 func (s *c04RecvStr) contiguous() c04bc {
@@ -553,7 +564,7 @@ func (s *c04RecvStr) abandoned() bool {
 }
 
 func (s *c04RecvStr) expected() c04bc {
-	if s.abandoned() {
+	if s.abandoned() && !s.leak {
 		return s.final
 	}
 	return s.read
@@ -565,6 +576,7 @@ type c04RecvRun struct {
 	conn     *c04CountingConnFC
 	sender   *c04Sender
 	connAdv  c04bc
+	connMaxW c04bc
 	connHigh c04bc
 	strs     []*c04RecvStr
 	now      monotime.Time
@@ -574,6 +586,7 @@ type c04RecvRun struct {
 	n        map[string]int
 	sdCredit c04bc
 	inSD     bool
+	extra    [][2]string // non-fatal violations (sig, detail); the history goes on
 }
 
 func (r *c04RecvRun) fail(sig, f string, a ...any) {
@@ -596,6 +609,30 @@ func (r *c04RecvRun) checkCredit(after string) {
 	var want c04bc
 	for _, s := range r.strs {
 		want += s.expected()
+	}
+	if got := r.conn.credit; got < want {
+		// Is the whole deficit explained by streams on which CancelRead was followed by a RESET_STREAM_AT whose
+		// reliable size lies beyond the read position?  Then this is the specific input class below.
+		var alt c04bc
+		var leaky []*c04RecvStr
+		for _, s := range r.strs {
+			if s.abandoned() && !s.leak && s.cancelled && s.cancelBeforeFinal && s.finalByResetAt && s.read < s.reliableAtFinal {
+				alt += s.read
+				leaky = append(leaky, s)
+			} else {
+				alt += s.expected()
+			}
+		}
+		if len(leaky) > 0 && got == alt {
+			for _, s := range leaky {
+				s.leak = true
+			}
+			r.n["known_leak_cancelread_then_reset_at"]++
+			r.extra = append(r.extra, [2]string{"C04|recvstream|credit-missing|cancelread-then-reset-at-with-reliable-size-beyond-read",
+				fmt.Sprintf("after %s: connection credited %d, consumed+abandoned %d: stream %d was cancelled locally (CancelRead) before its final size was known, then a RESET_STREAM_AT (final size %d, reliable size %d > read position %d) completed it; the %d received-but-unread bytes were never returned to the connection window",
+					after, got, want, leaky[0].id, leaky[0].final, leaky[0].reliableAtFinal, leaky[0].read, leaky[0].final-leaky[0].read)})
+			return
+		}
 	}
 	if got := r.conn.credit; got != want {
 		what := "credit-missing"
@@ -633,16 +670,20 @@ func (r *c04RecvRun) opFrame(i int) {
 	}
 	var off, n c04bc
 	if maxEnd > 0 {
-		off = c04bc(r.rng.Int64N(int64(maxEnd)))
-		if r.rng.IntN(2) == 0 {
-			off = min(s.read+c04bc(r.rng.IntN(40)), maxEnd-1) // near the read position
+		switch r.rng.IntN(10) {
+		case 0, 1: // anywhere (reordering, duplicates, overlaps)
+			off = c04bc(r.rng.Int64N(int64(maxEnd)))
+		case 2, 3: // near the read position
+			off = min(s.read+c04bc(r.rng.IntN(40)), maxEnd-1)
+		default: // in order
+			off = min(s.highest, maxEnd-1)
+			if off > 0 && r.rng.IntN(4) == 0 {
+				off -= c04bc(r.rng.Int64N(int64(min(off, 20)) + 1))
+			}
 		}
 		n = 1 + c04bc(r.rng.Int64N(int64(min(maxEnd-off, 1400))))
-		if r.rng.IntN(4) == 0 {
-			n = maxEnd - off
-			if n > 1400 {
-				off, n = maxEnd-1400, 1400
-			}
+		if r.rng.IntN(3) == 0 {
+			n = min(maxEnd-off, 1400)
 		}
 	}
 	fin := false
@@ -721,6 +762,11 @@ func (r *c04RecvRun) opReset(i int) {
 		return
 	}
 	r.accept(s, final)
+	if !s.finalKnown {
+		s.cancelBeforeFinal = s.cancelled
+		s.finalByResetAt = reliable > 0
+		s.reliableAtFinal = reliable
+	}
 	s.finalKnown, s.final = true, final
 	if !s.anyReset || reliable < s.reliable {
 		s.reliable = reliable
@@ -733,7 +779,22 @@ func (r *c04RecvRun) opReset(i int) {
 }
 
 func (r *c04RecvRun) opRead(i int) {
+	if r.rng.IntN(8) > 0 && !r.inSD {
+		// prefer a stream that has data
+		var cand []int
+		for j, s := range r.strs {
+			if s.contiguous() > 0 && !s.cancelled && !s.errSeen {
+				cand = append(cand, j)
+			}
+		}
+		if len(cand) > 0 {
+			i = cand[r.rng.IntN(len(cand))]
+		}
+	}
 	s := r.strs[i]
+	if (s.errSeen || s.eofSeen) && !r.inSD && r.rng.IntN(4) > 0 {
+		return // the application has already seen the end of this stream
+	}
 	// never call Read when it would block: data must be available, or the stream must be in a state in
 	// which Read returns at once
 	avail := s.contiguous()
@@ -795,10 +856,16 @@ func (r *c04RecvRun) opCtrl(i int) {
 			v := m.MaximumStreamData
 			r.ops = append(r.ops, c04SOp{K: "maxStreamDataOut", S: i, R: int64(v)})
 			r.n["max_stream_data_frames"]++
-			if v == 0 {
+			switch {
+			case v == 0:
+				// The flow controller's "no update" value, put into a frame because the final size became known
+				// between queueing and packing.  Not counted as an advertisement (the peer ignores it), but shown in
+				// the evidence.
 				r.n["max_stream_data_frames_zero"]++
-			} else if v < s.adv {
-				r.n["max_stream_data_frames_lower"]++
+			case v < s.adv:
+				r.fail("C04|recvstream|max-stream-data-decreased", "stream %d: MAX_STREAM_DATA %d after %d had been advertised", i, v, s.adv)
+			case v > s.read+s.maxW:
+				r.fail("C04|recvstream|max-stream-data-above-consumed-plus-window", "stream %d: MAX_STREAM_DATA %d with %d bytes consumed and a maximum window of %d", i, v, s.read, s.maxW)
 			}
 			s.adv = max(s.adv, v)
 		} else {
@@ -810,21 +877,27 @@ func (r *c04RecvRun) opCtrl(i int) {
 func (r *c04RecvRun) run(nOps int, shutdownPhase bool) {
 	for k := 0; k < nOps && r.err == "" && !r.ended; k++ {
 		i := r.rng.IntN(len(r.strs))
-		switch x := r.rng.IntN(100); {
-		case x < 38:
+		switch x := r.rng.IntN(1000); {
+		case x < 400:
 			r.opFrame(i)
-		case x < 72:
+		case x < 720:
 			r.opRead(i)
-		case x < 75:
+		case x < 732:
 			r.opCancel(i)
-		case x < 79:
+		case x < 750:
 			r.opReset(i)
-		case x < 90:
+		case x < 890:
 			r.sender.takeCtrl(r.strs[i].id)
 			r.opCtrl(i)
-		case x < 96:
+		case x < 960:
 			if o := r.conn.GetWindowUpdate(r.now); o != 0 {
 				r.n["max_data"]++
+				if o < r.connAdv {
+					r.fail("C04|recvstream|max-data-decreased", "MAX_DATA %d after %d had been advertised", o, r.connAdv)
+				}
+				if o > r.conn.credit+r.connMaxW {
+					r.fail("C04|recvstream|max-data-above-consumed-plus-window", "MAX_DATA %d with %d bytes credited and a maximum window of %d", o, r.conn.credit, r.connMaxW)
+				}
 				r.connAdv = max(r.connAdv, o)
 				r.ops = append(r.ops, c04SOp{K: "maxDataOut", S: -1, R: int64(o)})
 			}
@@ -914,7 +987,7 @@ func TestVerifC04RecvStream(t *testing.T) {
 				connMax := connW * c04bc(1+rng.IntN(4))
 				real := flowcontrol.NewConnectionFlowController(connW, connMax, func(c04bc) bool { return true }, rtt, utils.DefaultLogger)
 				r.conn = &c04CountingConnFC{ConnectionFlowController: real, ext: real}
-				r.connAdv = connW
+				r.connAdv, r.connMaxW = connW, connMax
 				cfg := map[string]any{"scale": r.scale, "connWindow": connW, "connMaxWindow": connMax}
 				var ws [][2]c04bc
 				for i := 0; i < nStr; i++ {
@@ -923,7 +996,7 @@ func TestVerifC04RecvStream(t *testing.T) {
 					ws = append(ws, [2]c04bc{w, mw})
 					sid := protocol.StreamID(4 * i)
 					fc := flowcontrol.NewStreamFlowController(sid, r.conn, w, mw, 1<<20, rtt, utils.DefaultLogger)
-					r.strs = append(r.strs, &c04RecvStr{str: newReceiveStream(sid, r.sender, fc), id: sid, adv: w})
+					r.strs = append(r.strs, &c04RecvStr{str: newReceiveStream(sid, r.sender, fc), id: sid, adv: w, maxW: mw})
 				}
 				cfg["streamWindows"] = ws
 				shutdown := rng.IntN(2) == 0
@@ -943,6 +1016,9 @@ func TestVerifC04RecvStream(t *testing.T) {
 				tot["conn_credit_calls"] += r.conn.calls
 				if r.err != "" {
 					c.Violation(r.sig, r.err, map[string]any{"batch": bi, "index": k, "cfg": cfg, "ops": r.ops})
+				}
+				for _, e := range r.extra {
+					c.Violation(e[0], e[1], map[string]any{"batch": bi, "index": k, "cfg": cfg, "ops": r.ops})
 				}
 			}
 		})
